@@ -2,7 +2,7 @@
 (* Concrete vocabulary of C08 shared by the exhaustive pools (MCNegotiate), the behaviour
    generator (NegotiateGen) and - through the generated JSON - the Go harness.
 
-   A case is a PICK: a tuple of 18 indices, one per factor.  CfgOf(p) / OpenOf(p) build the local
+   A case is a PICK: a tuple of 19 indices, one per factor.  CfgOf(p) / OpenOf(p) build the local
    neighbour configuration and the OPEN the simulated neighbour sends.
      1 las        AS of the speaker: 2-octet / 4-octet
      2 peermode   configured peer-as: the neighbour's real AS / none / another AS
@@ -20,6 +20,8 @@
      16 rgr       graceful restart (/ long-lived) capability
      17 layout    all capabilities in one optional parameter / one parameter each / two parameters
      18 order     capability order forward / reversed
+     19 bulk      the speaker originates 1100 further IPv4 routes with identical attributes (so
+                  that its packer fills UPDATEs up to the size limit in force) / only one per family
    AS numbers stay below 2^31 (TLC integers); 1000100 etc. are genuine 4-octet AS numbers. *)
 EXTENDS Integers, Sequences, FiniteSets
 
@@ -37,10 +39,11 @@ FRExt  == <<"no", "yes", "dup">>
 FRGr   == <<"no", "gr", "llgr">>
 FLayout == <<"one", "each", "two">>
 FOrder == <<"fwd", "rev">>
+FBulk  == <<TRUE, FALSE>>
 
 FactorSizes == <<Len(FLas), Len(FPeer), Len(FLMode), Len(FLMode), Len(FLMode), Len(FLHold), Len(FLKa),
                  Len(FLGr), Len(FRAs), Len(FRHold), Len(FRShape), Len(FRShape), Len(FRShape),
-                 Len(FROther), Len(FRExt), Len(FRGr), Len(FLayout), Len(FOrder)>>
+                 Len(FROther), Len(FRExt), Len(FRGr), Len(FLayout), Len(FOrder), Len(FBulk)>>
 NFactors == Len(FactorSizes)
 
 FamNames == <<"v4", "v6", "vpn4">>
@@ -130,6 +133,7 @@ CfgOf(p) ==
       \* a 1 s keepalive on a 65535 s hold time would only make the trace long
       ka |-> IF hold = 65535 THEN 0 ELSE FLKa[p[7]],
       gr |-> CASE FLGr[p[8]] = "off" -> "off" [] FLGr[p[8]] = "llgr" -> "llgr" [] OTHER -> "on",
-      grn |-> FLGr[p[8]] = "onN"]
+      grn |-> FLGr[p[8]] = "onN",
+      bulk |-> FBulk[p[19]]]
 
 =============================================================================
